@@ -20,7 +20,7 @@ def build(tier, seed):
     def evalfn(case):
         return eval_case(case, random.Random(engine.subseed("C10", seed, case["id"])))
 
-    return dict(cases=cases, evalfn=evalfn, level="exploration", min_nontrivial=80,
+    return dict(cases=cases, evalfn=evalfn, level="exploration", min_nontrivial=50,
                 rule="scenes of 2-5 TLS/QUIC connections to server ports drawn from {443, 44330, 8443, 4433, 9443, 1234, 50000, 1, 65535, 8080} x -p lists of 0..4 ports x -m "
                      "absent / bare / 1..4 a:b pairs with and without trailing commas (mapped ports inside and outside the connection set). Class = (-p size, -m form, "
                      "per-connection (protocol, selected?, mapped?)); non-trivial = at least one connection was exported and every connection's presence, ports and data were checked",
